@@ -77,23 +77,18 @@ for _s in BQ_ONE + BQ_TWO: assert _completable(_s), 'bounded-queue scenario can 
 DESC = ('2-3 threads x <=2 operations (push / try_pop) after a sequential pre-state; complete linearizability check of the invocation/response '
         'history against a FIFO queue, final drain, lane invariants, page accounting, cbmc memory safety (use after free of pages), lost hand-off (blocked-state oracle)')
 IMMB = [r'S_class_tbb__detail__d2__concurrent_bounded_queue\*\)v_\w+\)\)\.f[34]$']   # my_queue_representation, my_monitors
-UNITS['bq1_2'] = dict(wrapper='w_cq.cpp', mode='lcs', unroll=1, cxxflags=['-DELEM=1', '-DBOUNDED=1'], lvalpath=True, immutable=IMMB, threads=thr('vp_thr_q', 2))
-UNITS['bq1_3'] = dict(wrapper='w_cq.cpp', mode='lcs', unroll=1, cxxflags=['-DELEM=1', '-DBOUNDED=1'], lvalpath=True, immutable=IMMB, threads=thr('vp_thr_q', 3))
 UNITS['cqx1_2'] = dict(wrapper='w_cq.cpp', mode='lcs', unroll=1, cxxflags=['-DELEM=1', '-DFAULTS=1'], exceptions=True, allow_atomic=['__clang_call_terminate'], lvalpath=True, immutable=IMM, threads=thr('vp_thr_q', 2))
-UNITS['bqx1_2'] = dict(wrapper='w_cq.cpp', mode='lcs', unroll=1, cxxflags=['-DELEM=1', '-DBOUNDED=1', '-DABORTS=1'], exceptions=True, allow_atomic=['__clang_call_terminate'], lvalpath=True, immutable=IMMB, threads=thr('vp_thr_q', 2))
-# REALCPP: src/tbb/concurrent_bounded_queue.cpp is part of the unit; the boundary is concurrent_monitor_base::wait / notify(pred) / abort_all
-REALCUT = ['concurrent_monitor_baseImE4waitI', 'concurrent_monitor_baseImE6notifyI', 'concurrent_monitor_baseImE9abort_allEv']
-UNITS['bqr1_2'] = dict(wrapper='w_cq.cpp', mode='lcs', unroll=1, cxxflags=['-DELEM=1', '-DBOUNDED=1', '-DREALCPP=1', '-D__TBB_BUILD=1'], cut=REALCUT, prune=True,
-                       lvalpath=True, immutable=IMMB, threads=thr('vp_thr_q', 2))
 # REALCPP=2: everything of concurrent_monitor.h real except binary_semaphore::P/V and the bounded spin of the monitor mutex
 MONCUT = ['16binary_semaphore1PEv', '16binary_semaphore1VEv', 'timed_spin_wait_until']
 UNITS['bqm1_2'] = dict(wrapper='w_cq.cpp', mode='lcs', unroll=1, cxxflags=['-DELEM=1', '-DBOUNDED=1', '-DREALCPP=2', '-D__TBB_BUILD=1'], cut=MONCUT, devirt=['sleep_node'], prune=True,
                        lvalpath=True, immutable=IMMB, threads=thr('vp_thr_q', 2))
-UNITS['bqrf1_2'] = dict(wrapper='w_cq.cpp', mode='lcs', unroll=1, cxxflags=['-DELEM=1', '-DBOUNDED=1', '-DREALCPP=1', '-DFAULTS=1', '-D__TBB_BUILD=1'], cut=REALCUT, prune=True,
+UNITS['bqmf1_2'] = dict(wrapper='w_cq.cpp', mode='lcs', unroll=1, cxxflags=['-DELEM=1', '-DBOUNDED=1', '-DREALCPP=2', '-DFAULTS=1', '-D__TBB_BUILD=1'], cut=MONCUT, devirt=['sleep_node'], prune=True,
+                        exceptions=True, allow_atomic=['__clang_call_terminate'], lvalpath=True, immutable=IMMB, threads=thr('vp_thr_q', 2))
+UNITS['bqmx1_2'] = dict(wrapper='w_cq.cpp', mode='lcs', unroll=1, cxxflags=['-DELEM=1', '-DBOUNDED=1', '-DREALCPP=2', '-DABORTS=1', '-D__TBB_BUILD=1'], cut=MONCUT, devirt=['sleep_node'], prune=True,
                         exceptions=True, allow_atomic=['__clang_call_terminate'], lvalpath=True, immutable=IMMB, threads=thr('vp_thr_q', 2))
 HARNESSES = [
   dict(name='cq_big_2t', unit='cq1_2', harness='h_cq.c', defines={'NT': 2, 'ITEMS_PER_PAGE': 1},
-       scenarios_quick=R(3, ONE_OP[:3]) + R(2, ONE_OP[3:5]) + R(2, TWO_OP[:1]), scenarios_thorough=R(4, ONE_OP[:3]) + R(3, ONE_OP[3:]) + R(3, TWO_OP[:4]) + R(2, TWO_OP[4:]),
+       scenarios_quick=R(3, ONE_OP[:3]) + R(2, ONE_OP[3:5]), scenarios_thorough=R(4, ONE_OP[:3]) + R(3, ONE_OP[3:]) + R(3, TWO_OP[:4]) + R(2, TWO_OP[4:]),
        cbmc=CB, timeout=1500, mem_gb=8, thorough_override={'timeout': 7200}, native_cflags=NCF,
        desc='concurrent_queue<136-byte struct> (1 item/page: page allocated by every push, freed by every pop): ' + DESC,
        bounds={'threads': 2, 'ops_per_thread': '<=2', 'free_rounds': 'ROUNDS of the scenario (quick: 3 for 1 op/thread from a short pre-state, 2 otherwise; thorough 4 / 3)', 'forced_rounds': 2, 'spin_unroll': 1, 'pre_state': 'PRE_PUSH pushes then PRE_POP pops, sequential'}),
@@ -113,7 +108,7 @@ HARNESSES = [
        desc='fault variant (unit compiled WITH exceptions): the element copy constructor throws at a solver-chosen call (at most once) after the push took its ticket and its lane turn: '
             'the failing push reports the exception, its slot becomes an invalid entry that pops skip, no other item is lost/duplicated, history linearizable with the failed push having no effect: ' + DESC,
        bounds={'threads': 2, 'ops_per_thread': '<=2', 'faults': '<=1 constructor exception at any call index', 'free_rounds': 'ROUNDS of the scenario', 'forced_rounds': 2, 'spin_unroll': 1}),
-  dict(name='bq_abort_2t', unit='bqx1_2', harness='h_cq.c', defines={'NT': 2, 'ITEMS_PER_PAGE': 1, 'BOUNDED': 1, 'ABORTS': 1},
+  dict(name='bq_abort_2t', unit='bqmx1_2', harness='h_cq.c', defines={'NT': 2, 'ITEMS_PER_PAGE': 1, 'BOUNDED': 1, 'REALCPP': 2, 'ABORTS': 1},
        scenarios_quick=R(2, [dict(bsc(1, 0, 0, (BPOP, N), (ABORT, N)), PREBLOCK=1)]) + R(1, [dict(bsc(1, 1, 0, (PUSH, N), (ABORT, POP)), PREBLOCK=1)]),
        scenarios_thorough=R(2, [dict(bsc(1, 0, 0, (BPOP, N), (ABORT, N)), PREBLOCK=1), dict(bsc(1, 1, 0, (PUSH, N), (ABORT, POP)), PREBLOCK=1),
                                 bsc(1, 0, 0, (BPOP, N), (ABORT, PUSH)), bsc(1, 1, 0, (PUSH, N), (ABORT, BPOP))]),
@@ -122,7 +117,7 @@ HARNESSES = [
             'an aborted push leaves an invalid entry that later pops skip; user_abort only for calls overlapping an abort(); no item lost or duplicated, history of the successful calls linearizable. '
             'PREBLOCK: thread a first runs until it sleeps, then the threads interleave freely',
        bounds={'threads': 2, 'ops_per_thread': '<=2', 'capacity': 1, 'free_rounds': 'ROUNDS of the scenario (quick 2 / 1, thorough 2)', 'forced_rounds': 2, 'spin_unroll': 1}),
-  dict(name='bq_fault_2t', unit='bqrf1_2', harness='h_cq.c', defines={'NT': 2, 'ITEMS_PER_PAGE': 1, 'BOUNDED': 1, 'REALCPP': 1, 'FAULTS': 1},
+  dict(name='bq_fault_2t', unit='bqmf1_2', harness='h_cq.c', defines={'NT': 2, 'ITEMS_PER_PAGE': 1, 'BOUNDED': 1, 'REALCPP': 2, 'FAULTS': 1},
        scenarios_quick=R(1, [dict(bsc(2, 0, 0, (BPOP, N), (PUSH, PUSH)), PREBLOCK=1)]),
        scenarios_thorough=R(2, [dict(bsc(2, 0, 0, (BPOP, N), (PUSH, PUSH)), PREBLOCK=1), bsc(2, 0, 0, (BPOP, N), (PUSH, PUSH))]),
        cbmc=CB, timeout=1500, mem_gb=8, thorough_override={'timeout': 5400}, native_cflags=NCF,
@@ -130,16 +125,12 @@ HARNESSES = [
             'ticket t fails after taking it (invalid entry, no notify), the next push succeeds: its notify must release the sleeper (predicate_leq covers skipped tickets), the pop skips the invalid '
             'entry and returns the next item; nothing lost, history of the successful calls linearizable',
        bounds={'threads': 2, 'ops_per_thread': '<=2', 'capacity': 2, 'faults': '<=1 constructor exception at a solver-chosen call', 'free_rounds': 'quick 1 / thorough 2', 'forced_rounds': 2, 'spin_unroll': 1}),
-  dict(name='bq_mon_2t', unit='bqm1_2', harness='h_cq.c', defines={'NT': 2, 'ITEMS_PER_PAGE': 1, 'BOUNDED': 1, 'REALCPP': 2}, tiers=['thorough'],
-       scenarios=R(2, BQ_ONE[:2]), cbmc=CB, timeout=7200, mem_gb=10, native_cflags=NCF,
-       desc='concurrent_bounded_queue over the REAL concurrent_bounded_queue.cpp and the REAL concurrent_monitor_base / sleep_node (wait set, epoch, predicate on node contexts); only binary_semaphore::P/V and the monitor-mutex spin are stubs',
-       bounds={'threads': 2, 'ops_per_thread': 1, 'capacity': 1, 'free_rounds': 2, 'forced_rounds': 2, 'spin_unroll': 1}),
   dict(name='cq_big_3t', unit='cq1_3', harness='h_cq.c', defines={'NT': 3, 'ITEMS_PER_PAGE': 1}, tiers=['thorough'],
        scenarios=R(2, THREE_T), cbmc=CB, timeout=3600, mem_gb=8, native_cflags=NCF,
        desc='concurrent_queue<136-byte struct>, 3 threads x 1 operation: ' + DESC,
        bounds={'threads': 3, 'ops_per_thread': 1, 'free_rounds': 2, 'forced_rounds': 2, 'spin_unroll': 1}),
-  dict(name='bq_big_2t', unit='bqr1_2', harness='h_cq.c', defines={'NT': 2, 'ITEMS_PER_PAGE': 1, 'BOUNDED': 1, 'REALCPP': 1},
-       scenarios_quick=R(2, BQ_ONE[:3] + BQ_ONE[4:]), scenarios_thorough=R(3, BQ_ONE) + R(2, BQ_TWO),
+  dict(name='bq_big_2t', unit='bqm1_2', harness='h_cq.c', defines={'NT': 2, 'ITEMS_PER_PAGE': 1, 'BOUNDED': 1, 'REALCPP': 2},
+       scenarios_quick=R(2, BQ_ONE[:3] + BQ_ONE[4:]), scenarios_thorough=R(3, BQ_ONE[:2]) + R(2, BQ_ONE[2:]) + R(2, BQ_TWO),
        cbmc=CB, timeout=1500, mem_gb=8, thorough_override={'timeout': 5400}, native_cflags=NCF,
        desc='concurrent_bounded_queue<136-byte struct>, capacity 1-2 (header code real; the r1:: monitor entry points are contract stubs with sleeper bookkeeping): '
             'push/pop (blocking), try_push, try_pop; linearizability against a BOUNDED FIFO queue (a push takes effect only when size < capacity, try_push fails only when full), '
